@@ -2,6 +2,7 @@
 import numpy as np
 from hypothesis import strategies as st
 
+from harness import buffers
 from harness.core import SubCheck, Violation
 
 PROPERTY = "C10"
@@ -40,7 +41,7 @@ def stacking_case(draw):
                                   min_size=L * N, max_size=L * N)) for L in lens]
     labels_seed = draw(st.integers(0, 2 ** 16))
     return {"W": W, "N": N, "lens": lens, "seed": seed, "special_rate": special_rate, "layout": layout,
-            "explicit_bits": explicit, "labels_seed": labels_seed}
+            "explicit_bits": explicit, "labels_seed": labels_seed, "reuse_buffers": draw(st.booleans())}
 
 
 def build_series(case):
@@ -67,6 +68,8 @@ def build_series(case):
             a = big[1::2, ::2]
         elif lay == "readonly":
             a.setflags(write=False)
+        if lay == "C" and case.get("reuse_buffers"):
+            a = buffers.reuse(f"C10.series.{si}", a)     # the same array object as in earlier cases, refilled in place
         out.append(a)
     return out
 
@@ -87,6 +90,21 @@ def execute(case, t):
     W, N = case["W"], case["N"]
     series = build_series(case)
     before = [np.ascontiguousarray(s).view(np.uint64).copy() for s in series]
+    if case.get("reuse_buffers") and all(s.flags.writeable for s in series):
+        # earlier calls on the very same array objects: another window size, and other contents (refilled afterwards)
+        saved = [s.copy() for s in series]
+        try:
+            w2 = W + 1 if all(len(s) >= W + 1 for s in series) else max(1, W - 1)
+            dp.stack_training_data_multiple_series(list(series), w2)
+            dp.stack_training_data(series[0], w2)
+            for s in series:
+                s[...] = 1.25
+            dp.stack_training_data_multiple_series(list(series), W)
+            dp.stack_training_data(series[0], W)
+        finally:
+            for s, s0 in zip(series, saved):
+                s[...] = s0
+        t.cls("same_arrays_stacked_before_with_other_W_and_contents")
     exps = []
     for si, s in enumerate(series):
         try:
